@@ -9,7 +9,8 @@ Open Scope N_scope.
 Record span_obs := {
   so_ctx : octx;
   so_recording : bool;
-  so_answer : option (N * bytes * list N)
+  so_answer : option (N * bytes * list N);
+  so_ref : option bool    (* when a TraceIDRatioBased delegate answered: its answer for the same trace id without a parent *)
 }.
 
 Inductive case :=
@@ -29,7 +30,10 @@ Inductive case :=
 (** a program on a provider whose ID generator is the stock randomIDGenerator over a scripted
     rand.Source answering [words] and then [fill] for ever; consumed: Int63 calls made on the source *)
 | CStock (words : list N) (fill : N) (s : sampler) (ops : list start_op)
-         (obs : list span_obs) (exp_simple exp_batch : list bytes) (consumed : N).
+         (obs : list span_obs) (exp_simple exp_batch : list bytes) (consumed : N)
+(** span ids of all spans and trace ids of all roots started on several TracerProviders with the
+    DEFAULT ID generator in one process, interleaved *)
+| CUnique (sids tids : list bytes).
 
 Definition flag (b : bool) (code : N) : list N := if b then [] else [code].
 
@@ -79,6 +83,19 @@ Definition parent_obs (obs : list span_obs) (p : parent_ref) : octx :=
   | PCtx c => octx_of c
   end.
 
+(** the sampler that answered, following the delegates asked *)
+Fixpoint leaf_at (s : sampler) (p : list N) : option sampler :=
+  match s, p with
+  | SParent root rs rns ls lns, k :: p' =>
+      match k with
+      | 0 => leaf_at root p' | 1 => leaf_at rs p' | 2 => leaf_at rns p' | 3 => leaf_at ls p' | 4 => leaf_at lns p'
+      | _ => None
+      end
+  | SParent _ _ _ _ _, [] => None
+  | _, [] => Some s
+  | _, _ :: _ => None
+  end.
+
 Definition is_parent_based (s : sampler) : bool := match s with SParent _ _ _ _ _ => true | _ => false end.
 Definition is_default_parent_based (s : sampler) : bool :=
   match s with SParent _ SAlways SNever SAlways SNever => true | _ => false end.
@@ -105,6 +122,11 @@ Definition start_spec (s : sampler) (obs : list span_obs) (gens : list (bytes * 
       start_ok (stock s) parent (fst g) (snd g) d ts c (so_recording so) in1 &&
       (* ParentBased asks the delegate the parent's shape selects; default options: the parent's decision *)
       (if is_parent_based s then match p with k :: _ => k =? pick_index parent | [] => false end else true) &&
+      (* a ratio sampler that answered did so by the trace id alone *)
+      match leaf_at s p with
+      | Some (SRatio _) => match so_ref so with Some rf => parent_independent d rf | None => false end
+      | _ => true
+      end &&
       (if is_default_parent_based s then
          match default_parent_decision parent with Some d' => (d =? d') && bytes_eqb ts (o_ts parent) | None => true end
        else true)
@@ -183,6 +205,8 @@ Definition check_case (c : case) : list N :=
   | CStock words fill s ops obs e1 e2 consumed =>
       flag (stock_mismatch words fill s ops obs e1 e2 consumed) V_MISMATCH ++
       flag (stock_spec s ops obs e1 e2) V_SPECFAIL
+  | CUnique sids tids =>
+      flag (forallb valid_sid sids && forallb valid_tid tids && distinct sids && distinct tids) V_SPECFAIL
   end.
 
 Definition run (cs : list case) : list (N * N) := index_from 0 check_case cs.
